@@ -157,6 +157,8 @@ class FitsTiler(object):
 
                 if os.path.exists(os.path.join(self.out_dir, "properties")):
                     self._copy_hips_properties_to_builder()
+                else:
+                    self._restore_builder_from_wtml()
 
                 return
 
@@ -396,6 +398,33 @@ class FitsTiler(object):
             os.symlink(src=absolute_path, dst=link_path)
 
         return dir
+
+    def _restore_builder_from_wtml(self):
+        """
+        When reusing an existing TAN or TOAST output directory, describe the
+        data set as the ``index_rel.wtml`` written by the earlier run does, so
+        that the returned builder matches the tiles on disk.
+        """
+        from wwt_data_formats.folder import Folder
+        from wwt_data_formats.imageset import ImageSet
+
+        wtml_path = os.path.join(self.out_dir, "index_rel.wtml")
+
+        if not os.path.exists(wtml_path):
+            return
+
+        for child in Folder.from_file(wtml_path).children:
+            if isinstance(child, ImageSet):
+                self.builder.imgset = child
+                self.builder.place.foreground_image_set = child
+                return
+
+            imgset = getattr(child, "foreground_image_set", None)
+
+            if imgset is not None:
+                self.builder.place = child
+                self.builder.imgset = imgset
+                return
 
     def _copy_hips_properties_to_builder(self):
         hips_properties = dict()
